@@ -154,7 +154,8 @@ impl Universe {
             }
         }
         let probe = build_raw(&paths[0], 1000);
-        let exp_delta = probe.expiration().expect("expiry") - 1000;
+        // lifetime of a hop field with expiry byte 0 (337 s); tolerate a code under test that reports none
+        let exp_delta = probe.expiration().map(|e| e.wrapping_sub(1000)).unwrap_or(337);
         let mut by_fp = HashMap::new();
         for p in &paths {
             let fp = build_raw(p, 1000).fingerprint();
@@ -174,9 +175,7 @@ impl Universe {
             std::process::exit(2)
         });
         let variant = if variant == "ok" && !p.meta { "nometa" } else { variant };
-        let sp = build_variant(p, (exp_abs as u32).wrapping_sub(self.exp_delta), variant);
-        debug_assert_eq!(sp.expiration(), Some(exp_abs as u32));
-        sp
+        build_variant(p, (exp_abs as u32).wrapping_sub(self.exp_delta), variant)
     }
     fn id_of(&self, fp: &DpPathFingerprint) -> i64 {
         *self.by_fp.get(fp).unwrap_or(&-1)
@@ -652,14 +651,22 @@ fn replay(inp: &str, outp: &str) {
                 continue;
             }
         };
-        let mut steps = vec![json!({"a": {"a": "init"}, "o": {}, "s": run.state()})];
+        // a panic that escapes the per-call capture (e.g. while building a scripted path or projecting the state)
+        // is still an observation about the code under test, never a harness abort
+        let mut steps: Vec<Value> = vec![];
         let mut end = "complete".to_string();
-        for a in h {
-            steps.push(run.step(a));
-            if let Some(d) = &run.dead {
-                end = d.clone();
-                break;
+        let r = catch(|| {
+            steps.push(json!({"a": {"a": "init"}, "o": {}, "s": run.state()}));
+            for a in h {
+                steps.push(run.step(a));
+                if let Some(d) = &run.dead {
+                    end = d.clone();
+                    break;
+                }
             }
+        });
+        if let Err(m) = r {
+            end = format!("panic-outside-call:{m}");
         }
         w.write(&json!({"run": n, "steps": steps, "end": end}));
     }
